@@ -52,6 +52,7 @@ type VC struct {
 	unit    string
 	decls   []string
 	asserts []string
+	adef    []string // parallel to asserts: symbol defined by the assert ("" = assumption)
 	obligs  []*Oblig
 	cands   []*Candidate
 	n       int
@@ -64,6 +65,8 @@ type VC struct {
 	names   map[string]int // obligation name de-duplication
 	dry     int            // >0: dry run (loop scanning); output discarded
 	err     error
+	cover   Term   // disjunction of the guards of all returns (vacuity check)
+	coverSt string // verdict of the cover query: sat/unknown = fine, unsat = vacuous
 }
 
 func newVC(e *Engine, unit string) *VC {
@@ -91,6 +94,27 @@ func (vc *VC) assert(t Term) {
 		return
 	}
 	vc.asserts = append(vc.asserts, t)
+	vc.adef = append(vc.adef, "")
+}
+
+// assertDef records a (possibly guarded) definition of sym; hypothesis slicing
+// includes it only when sym is relevant.
+func (vc *VC) assertDef(sym string, t Term) {
+	if t == "true" || t == "" {
+		return
+	}
+	vc.asserts = append(vc.asserts, t)
+	vc.adef = append(vc.adef, sym)
+}
+
+// defEq asserts guard => a == b leaf by leaf, each as a definition of a's leaf.
+func (vc *VC) defEq(guard Term, a, b SV) {
+	for i := range a.T {
+		if a.T[i] == b.T[i] {
+			continue
+		}
+		vc.assertDef(a.T[i], mkImp(guard, mkEq(a.T[i], b.T[i])))
+	}
 }
 
 // assume adds a hypothesis that holds whenever the program point is reached.
@@ -118,7 +142,7 @@ func (vc *VC) define(prefix string, s Sort, term Term) Term {
 		return term
 	}
 	n := vc.fresh(prefix, s)
-	vc.assert(mkEq(n, term))
+	vc.assertDef(n, mkEq(n, term))
 	return n
 }
 
